@@ -7,7 +7,7 @@ PROP = {
             "msgpack_depth_boundary_any_spelling", "msgpack_depth_boundary",
             "msgpack_slice_eq_reader", "msgpack_slice_eq_reader_budgets", "depth_verdict_slice_eq_reader",
             "recursion_bounded", "msgpack_roundtrip", "illformed_str_becomes_bin", "msgpack_frame_recover",
-            "msgpack_fixed_point", "own_msgpack_first_byte",
+            "msgpack_fixed_point", "decoded_values_wellformed", "msgpack_fixed_point_any_input", "own_msgpack_first_byte",
         ],
         "needs_binary": True,
         "timeout": {"quick": 900, "thorough": 3000},
